@@ -202,6 +202,20 @@ def run(prog, check):
                  'flag set to False only under (exclusion is for this sector) and (excluded name == sign-stripped term)' if ok else
                  'the income flag is changed outside a matching exclusion of this sector (obj=%s, name=%s, False=%s)' % (cond_obj, cond_name, is_false),
                  "exclusion registered for another sector, or for 'DEM_GOOD' while the flow is '-DEM_GOODS'")
+    # the scan over the exclusions is complete: it may stop early only after a match lowered the flag
+    excl_loops = [l for l in ast.walk(cash.node) if isinstance(l, ast.For) and 'IncomeExclusions' in unparse(l.iter)]
+    for l in excl_loops:
+        stops = [n for n in g.stmt_nodes() if n.kind == 'stmt' and isinstance(n.ast, (ast.Break, ast.Return)) and l in n.loops]
+        bad_stop = [n for n in stops if not any(g.dominates(lw, n) for lw in lowers)]
+        filt = [n for n in g.nodes if n.kind == 'test' and l in n.loops and not any(
+            g.dominates(n, lw) for lw in lowers)]
+        check.ob('C06.R2', '%s::exclusion-scan-complete' % cash.key, not bad_stop, '%s:%d' % (cash.module.rel, l.lineno),
+                 'every registered exclusion is examined until one matches' if not bad_stop else
+                 'the scan over the exclusions can stop (line %s) before a matching exclusion was found' % [n.line for n in bad_stop],
+                 'a sector with two exclusions, the flow matching the second one')
+    if not excl_loops:
+        check.ob('C06.R2', '%s::exclusion-scan-complete' % cash.key, False, cash.where, 'the income exclusions are never consulted',
+                 'an excluded flow')
     # ---- R3 ----------------------------------------------------------------------------------------
     eqn_p = params[2] if len(params) > 2 else 'eqn'
     overw = [n for n in g.stmt_nodes() if n.kind == 'stmt' and any(isinstance(c, ast.Call) and call_name(c) == 'SetEquationRightHandSide'
@@ -300,7 +314,7 @@ def run(prog, check):
     # ---- W -----------------------------------------------------------------------------------------
     who_may_write(prog, check, 'C06.W', cash)
     check.floor('C06.R1', 2)
-    check.floor('C06.R2', 3)
+    check.floor('C06.R2', 4)
     check.floor('C06.R3', 4)
     check.floor('C06.R4', 3)
     check.floor('C06.W', 4)
